@@ -50,7 +50,7 @@ func pickCounter(g *hx.Gen) uint64 {
 }
 
 func gen(g *hx.Gen) {
-	n := g.Count(5000, 100000)
+	n := g.Count(5000, 60000)
 	r := g.R
 	for i := 0; i < n; i++ {
 		if r.Chance(1, 8) {
